@@ -240,7 +240,7 @@ theorem rpVerifyAccessToken_ok {now atk c alg} :
   cases hashOf alg with
   | none => simp [Go.ok]
   | some h =>
-    simp [Go.ok, HashString]
+    simp [Go.ok, HashString, Hand.leftHalfHash]
     constructor
     · intro hh; by_cases h0 : c.atHash = ""
       · left; exact h0
